@@ -195,7 +195,9 @@ for ns in ["Auto", "Unix", "Windows"]:
     for (lo, hi) in [(0, 1), (0, 0), (1, 2), (0, 3)]:
         for ht, ts in [("false", 4), ("true", 4), ("false", 2)]:
             GRID.append([["newline_style", ns], ["blank_lines_lower_bound", str(lo)], ["blank_lines_upper_bound", str(hi)], ["hard_tabs", ht], ["tab_spaces", str(ts)]])
-E2E_LAYOUTS = ["orig", "crlf", "blank"]
+E2E_LAYOUTS = ["orig", "crlf", "blank", "lead"]
+# "any amount of leading blank lines, tabs or spaces": prefixes put before the program by layout `lead`
+LEADS = ["\n  \n", "  \n", "\t\n\n", "\n\n  \n", " \n// c\n", "\n \t \n\n", "  \n  \n", "\n\n\n"]
 
 
 def e2e(rep, tier, seed):
@@ -207,7 +209,7 @@ def e2e(rep, tier, seed):
             for gi, g in enumerate(GRID):
                 if tier == "thorough" or common_hash("%s|%s|%d" % (p["id"], lay, gi)) % MOD == seed % MOD:
                     sel.append((p, lay, gi))
-    need = {p["id"] for p, lay, _ in sel if lay != "orig"}
+    need = {p["id"] for p, lay, _ in sel if lay not in ("orig", "lead")}
     lex_in = [p for p in P if p["id"] in need]
     lexed = dict(zip([p["id"] for p in lex_in], common.run_vh_pool("lex", [{"text": p["text"]} for p in lex_in])))
     cases, meta, texts = [], [], {}
@@ -215,7 +217,11 @@ def e2e(rep, tier, seed):
         tk = (p["id"], lay)
         if tk not in texts:
             toks = lexed.get(p["id"])
-            texts[tk] = p["text"] if lay == "orig" else (pool.relayout(toks, lay, random.Random(p["id"])) if isinstance(toks, list) else None)
+            if lay == "lead":
+                shebang = p["text"].startswith("#!") and not p["text"].startswith("#![")
+                texts[tk] = None if shebang else LEADS[common_hash(p["id"]) % len(LEADS)] + p["text"]
+            else:
+                texts[tk] = p["text"] if lay == "orig" else (pool.relayout(toks, lay, random.Random(p["id"])) if isinstance(toks, list) else None)
         if texts[tk] is None:
             continue
         cases.append({"text": texts[tk], "config": pool.merged(p["header"], GRID[gi]), "again": False, "lex": True, "nodes_out": True})
@@ -232,7 +238,69 @@ def e2e(rep, tier, seed):
                              "%s (%s, layout %s, %s)" % (what, pid, lay, GRID[gi])):
                 found += 1
     rep.coverage["e2e_programs_judged"] = n
+    found += file_matrix(rep, tier, seed)
     rep.coverage["e2e_rule"] = "pool x layouts %s x %d configurations (newline_style x blank-line bounds x hard_tabs/tab_spaces); thorough = all, quick = the 1/%d slice selected by the seed; clauses: one final terminator, no leading blank line, terminators follow newline_style, blank-line runs <= upper bound" % (E2E_LAYOUTS, len(GRID), MOD)
+    return found
+
+
+FM_BODIES = [("fn main() {\n    let x = 1;\n}\n", True), ("fn  main( ){\nlet x=1;\n}\n", False),
+             ("// c\nstruct A {\n    a: u8,\n}\n\nfn f() {}\n", True), ("/* a\n   b */\nfn g() {\n    let s = 1;\n}\n", True)]
+
+
+def file_matrix(rep, tier, seed):
+    """files on disk, rewritten in place by the real binary: the FILE must obey newline_style afterwards, whatever
+    terminators it had and whether or not anything else needed formatting"""
+    import os
+    import shutil
+    ok, blog, _ = common.build_bins()
+    if not ok:
+        raise RuntimeError("build of /repo binaries failed:\n" + blog)
+    d = os.path.join(common.CACHE, "c08fm")
+    shutil.rmtree(d, ignore_errors=True)
+    os.makedirs(d)
+    env = common.rust_env()
+    env.pop("CARGO_TARGET_DIR", None)
+    found = n = 0
+    for bi, (body, _f) in enumerate(FM_BODIES):
+        probe = os.path.join(d, "probe.rs")
+        open(probe, "w", newline="").write(body)
+        rc0, o0, e0 = common.sh([common.bin_path("rustfmt"), "--check", "--config", "newline_style=Unix", probe], cwd=d, env=env, timeout=60)
+        formatted = rc0 == 0          # whether the LF rendering is already formatted (decided by the binary itself)
+        os.remove(probe)
+        for eol in ("lf", "crlf", "mixed"):
+            if eol == "lf":
+                text = body
+            elif eol == "crlf":
+                text = body.replace("\n", "\r\n")
+            else:
+                ls = body.split("\n")
+                text = "".join(l + ("\r\n" if i % 2 else "\n") for i, l in enumerate(ls[:-1]))
+            for style in ("Unix", "Windows", "Native"):
+                for mode in ("files", "check"):
+                    f = os.path.join(d, "m%d.rs" % n)
+                    n += 1
+                    open(f, "w", newline="", encoding="utf-8").write(text)
+                    args = [common.bin_path("rustfmt"), "--config", "newline_style=" + style] + (["--check"] if mode == "check" else []) + [f]
+                    rc, o, e = common.sh(args, cwd=d, env=env, timeout=60)
+                    after = open(f, newline="", encoding="utf-8").read()
+                    want_crlf = style == "Windows"
+                    obeys = (lambda t: all(t[i] != "\n" or (i > 0 and t[i - 1] == "\r") for i in range(len(t)))) if want_crlf else (lambda t: "\r\n" not in t)
+                    case = {"body": body, "eol": eol, "newline_style": style, "mode": mode, "before": text, "after": after, "rc": rc, "stderr": e[-300:]}
+                    if mode == "files":
+                        if rc == 0 and not obeys(after):
+                            if rep.violation("file_terminators", case, "after `rustfmt --config newline_style=%s FILE` (exit 0) the file (%s terminators before, body %d) does not follow the style" % (style, eol, bi)):
+                                found += 1
+                    else:
+                        clean = formatted and obeys(text)
+                        if after != text:
+                            if rep.violation("check_wrote", case, "--check modified the file"):
+                                found += 1
+                        elif (rc == 0) != clean:
+                            if rep.violation("check_terminators", case, "`rustfmt --check --config newline_style=%s` exits %d on a file with %s terminators (body %d, %s)" % (style, rc, eol, bi, "formatted" if formatted else "unformatted")):
+                                found += 1
+    shutil.rmtree(d, ignore_errors=True)
+    rep.coverage["file_matrix_runs"] = n
+    rep.coverage["file_matrix_rule"] = "4 bodies x {LF, CRLF, mixed} terminators x newline_style {Unix, Windows, Native} x {in-place run, --check} through the real binary on real files: the rewritten file obeys the style; --check exits 0 iff the file is formatted and obeys it"
     return found
 
 
